@@ -42,6 +42,10 @@ def c18_isa(endian):
                                   'variants': [{'bytecode': {'value': 0x38, 'size': 6}, 'operands': {'count': 1, 'operand_sets': {'list': ['reg']}}}]}
     isa['instructions']['lix'] = {'bytecode': {'value': 0x31, 'size': 6}, 'operands': {'count': 1, 'operand_sets': {'list': ['idx']}}}
     isa['instructions']['liy'] = {'bytecode': {'value': 0x32, 'size': 6}, 'operands': {'count': 1, 'operand_sets': {'list': ['iidx']}}}
+    # a page-local jump: the low 8 bits of a target that must lie in the instruction's own 256-byte page (used by C14)
+    isa['operand_sets']['pg8'] = {'operand_values': {'pa': {'type': 'address', 'argument': {
+        'size': 8, 'byte_align': True, 'slice_lsb': True, 'match_address_msb': True}}}}
+    isa['instructions']['jpl'] = {'bytecode': {'value': 0x7B, 'size': 8}, 'operands': {'count': 1, 'operand_sets': {'list': ['pg8']}}}
     return isa
 
 
